@@ -6,7 +6,7 @@ On every run async_channel.py of the working tree is read with `ast` and the met
 
 are translated statement by statement into definitions of type `Co` (lean/BpProofs/PyPreludeChan.lean): a tree of
 commands, one per access to `self._closed` / `self._flushed` / `self._waiting_receivers` and per call on `self._queue`,
-each holding its continuation.
+each holding its continuation (`self._queue.empty()` is read as `qsize() == 0`).
 
   * an `async def` ends in the leaves `.ret v` / `.raise e`;
   * a synchronous method takes the continuation `k : Val → Co` that receives its result, so `self.done()` / `self.close()`
@@ -182,6 +182,9 @@ class Method:
         if self.is_queue_call(e, "qsize", 0):
             v = self.var()
             return "(.qsize fun %s =>%s%s)" % (v, ind(d), k(v, "int"))
+        if self.is_queue_call(e, "empty", 0):           # Queue.empty(): `not self._queue`
+            v = self.var()
+            return "(.qsize fun %s =>%s%s)" % (v, ind(d), k("(decide (%s = (0 : Int)))" % v, "bool"))
         if isinstance(e, ast.Call):
             f = e.func
             if e.keywords or any(isinstance(x, ast.Starred) for x in e.args):
